@@ -47,10 +47,23 @@ pub struct Interruption {
     pub action: Action,
 }
 
+/// Interruption addressed by identity (used when tables are imported in parallel and the
+/// global order of fault points is not deterministic).
+#[derive(Clone, Debug, Serialize, Deserialize, PartialEq, Eq, Hash)]
+pub struct ParInterruption {
+    pub migration: String,
+    pub group: usize,
+    pub phase: String,
+    pub action: Action,
+}
+
 #[derive(Clone, Debug, Serialize, Deserialize)]
 pub struct Plan {
     pub scenario: Scenario,
     pub interruptions: Vec<Interruption>,
+    /// non-empty for plans of the parallel-import scenario
+    #[serde(default)]
+    pub par: Vec<ParInterruption>,
 }
 
 type Point = (String, usize, Phase);
@@ -69,10 +82,42 @@ thread_local! {
     static ARMED: RefCell<Option<Armed>> = const { RefCell::new(None) };
 }
 
+/// Process-wide armed state for the parallel-import scenario (fault points are hit on
+/// tokio's blocking threads there); only used while no sequential sweep is running.
+#[derive(Default)]
+struct ParArmed {
+    target: Option<ParInterruption>,
+    fired: Option<Point>,
+    cancel: Option<watch::Sender<State>>,
+    commits: Vec<(String, usize)>,
+}
+static PAR: Mutex<Option<ParArmed>> = Mutex::new(None);
+
 fn install_handler() {
     static ONCE: Once = Once::new();
     ONCE.call_once(|| {
         verif_hooks::set_handler(Some(Arc::new(|table: &str, index: usize, phase: Phase| {
+            let seq = ARMED.with(|a| a.borrow().is_some());
+            if !seq {
+                let mut g = PAR.lock().unwrap_or_else(|e| e.into_inner());
+                let Some(st) = g.as_mut() else { return Ok(()) };
+                if phase == Phase::AfterCommit {
+                    st.commits.push((table.to_string(), index));
+                }
+                let hit = st.fired.is_none() && st.target.as_ref().is_some_and(|t| t.migration == table && t.group == index && t.phase == format!("{phase:?}"));
+                if hit {
+                    st.fired = Some((table.to_string(), index, phase));
+                    match st.target.as_ref().map(|t| t.action) {
+                        Some(Action::Fail) => return Err(anyhow::anyhow!("verif: injected failure")),
+                        _ => {
+                            if let Some(c) = &st.cancel {
+                                let _ = c.send(State::Stopping);
+                            }
+                        }
+                    }
+                }
+                return Ok(());
+            }
             ARMED.with(|a| {
                 let mut a = a.borrow_mut();
                 let Some(st) = a.as_mut() else { return Ok(()) };
@@ -131,6 +176,21 @@ fn one_run(rt: &tokio::runtime::Runtime, config: &Config, db: &CombinedDatabase,
     RunOut { result, fired: st.fired, commits: st.commits, trace: st.trace }
 }
 
+/// One start of the node's genesis import in the parallel scenario. The run gets its own
+/// runtime; dropping it waits for blocking import tasks that outlive a failed
+/// `execute_genesis_block` (the process would still be alive for that long).
+fn one_run_par(config: &Config, db: &CombinedDatabase, intr: Option<&ParInterruption>) -> RunOut {
+    install_handler();
+    let (tx, rx) = watch::channel(State::Started);
+    let watcher: StateWatcher = rx.into();
+    *PAR.lock().unwrap_or_else(|e| e.into_inner()) = Some(ParArmed { target: intr.cloned(), cancel: Some(tx), ..Default::default() });
+    let rt = rt();
+    let result = rt.block_on(run_genesis(watcher, config, db)).map_err(|e| format!("{e:#}"));
+    drop(rt);
+    let st = PAR.lock().unwrap_or_else(|e| e.into_inner()).take().expect("armed state");
+    RunOut { result, fired: st.fired, commits: st.commits, trace: vec![] }
+}
+
 pub struct Final {
     pub pre_on: Dump,
     pub pre_off: Dump,
@@ -154,12 +214,20 @@ fn state_digest(db: &CombinedDatabase) -> String {
 }
 
 pub fn run_plan(rt: &tokio::runtime::Runtime, config: &Config, interruptions: &[Interruption]) -> PlanOut {
+    run_plan_with(rt, config, interruptions.len(), |db, k| one_run(rt, config, db, k.map(|k| interruptions[k])))
+}
+
+pub fn run_plan_par(rt: &tokio::runtime::Runtime, config: &Config, interruptions: &[ParInterruption]) -> PlanOut {
+    run_plan_with(rt, config, interruptions.len(), |db, k| one_run_par(config, db, k.map(|k| &interruptions[k])))
+}
+
+fn run_plan_with(rt: &tokio::runtime::Runtime, config: &Config, n: usize, run: impl Fn(&CombinedDatabase, Option<usize>) -> RunOut) -> PlanOut {
     let db = CombinedDatabase::in_memory();
     let mut interrupted = vec![];
     let mut commits = vec![];
     let mut completing: Option<RunOut> = None;
-    for intr in interruptions {
-        let out = one_run(rt, config, &db, Some(*intr));
+    for k in 0..n {
+        let out = run(&db, Some(k));
         commits.extend(out.commits.iter().cloned());
         match &out.result {
             Err(e) => interrupted.push((out.fired.clone(), e.clone(), state_digest(&db))),
@@ -174,7 +242,7 @@ pub fn run_plan(rt: &tokio::runtime::Runtime, config: &Config, interruptions: &[
     let out = match completing {
         Some(o) => o,
         None => {
-            let o = one_run(rt, config, &db, None);
+            let o = run(&db, None);
             commits.extend(o.commits.iter().cloned());
             o
         }
@@ -209,11 +277,16 @@ pub struct Prepared {
 }
 
 pub fn prepare(rt: &tokio::runtime::Runtime, scenario: &Scenario) -> Prepared {
+    prepare_mode(rt, scenario, false)
+}
+
+pub fn prepare_mode(rt: &tokio::runtime::Runtime, scenario: &Scenario, parallel: bool) -> Prepared {
+    let run_plain = |config: &Config| if parallel { run_plan_par(rt, config, &[]) } else { run_plan(rt, config, &[]) };
     let src = build_source(&scenario.shape).unwrap_or_else(|e| machinery_failure(&format!("source: {e:#}")));
-    let dir = tempfile::tempdir().unwrap_or_else(|e| machinery_failure(&format!("tempdir: {e}")));
+    let dir = tempfile::Builder::new().prefix("vh-genesis-").tempdir().unwrap_or_else(|e| machinery_failure(&format!("tempdir: {e}")));
     export(rt, &src, dir.path(), scenario.encoding).unwrap_or_else(|e| machinery_failure(&format!("export: {e:#}")));
     let config = open_snapshot(dir.path(), scenario.encoding).unwrap_or_else(|e| machinery_failure(&format!("open: {e:#}")));
-    let PlanOut { fin, commits: base_commits, final_trace, .. } = run_plan(rt, &config, &[]);
+    let PlanOut { fin, commits: base_commits, final_trace, .. } = run_plain(&config);
     let fin = fin.unwrap_or_else(|e| machinery_failure(&format!("uninterrupted import failed: {e}")));
     let mut commits = BTreeSet::new();
     let mut per_table: BTreeMap<String, usize> = BTreeMap::new();
@@ -223,14 +296,17 @@ pub fn prepare(rt: &tokio::runtime::Runtime, scenario: &Scenario) -> Prepared {
         }
         *per_table.entry(c.0.clone()).or_default() += 1;
     }
-    if per_table.values().any(|n| *n >= 10) {
+    if parallel && per_table.values().filter(|n| **n >= 10).count() < 2 {
+        machinery_failure("parallel scenario needs at least two tables with >= 10 groups");
+    }
+    if !parallel && per_table.values().any(|n| *n >= 10) {
         machinery_failure("scenario has a table with >= 10 groups (parallel import path; fault points would not be on the harness thread)");
     }
     if per_table.len() < 3 || per_table.values().filter(|n| **n >= 3).count() < 3 {
         machinery_failure("scenario too small: fewer than 3 tables with 3 groups");
     }
     // a second uninterrupted import must give the same dumps (determinism of the baseline)
-    let again = run_plan(rt, &config, &[]);
+    let again = run_plain(&config);
     match again.fin {
         Ok(f) if f.post_on == fin.post_on && f.post_off == fin.post_off && f.pre_on == fin.pre_on && f.pre_off == fin.pre_off => {}
         Ok(f) => {
@@ -358,15 +434,33 @@ fn label(i: &Interruption, fired: &Option<Point>) -> String {
     }
 }
 
-fn record(sw: &mut Sweep, p: &Prepared, ints: &[Interruption], out: &PlanOut) {
+type Witness = Mutex<BTreeMap<String, usize>>;
+
+fn note_witness(w: &Witness, k: usize, vs: &[Violation]) {
+    if vs.is_empty() {
+        return;
+    }
+    let mut w = w.lock().unwrap();
+    for x in vs {
+        match w.get(&x.sig) {
+            Some(j) if *j <= k => {}
+            _ => {
+                w.insert(x.sig.clone(), k);
+            }
+        }
+    }
+}
+
+fn record(sw: &mut Sweep, p: &Prepared, ints: &[Interruption], out: &PlanOut, w: &Witness, k: usize) {
     let vs = check(p, out);
+    note_witness(w, k, &vs);
     let labels: Vec<String> = ints.iter().zip(out.interrupted.iter()).map(|(i, (f, e, _))| format!("{}{}", label(i, f), if e == "completed" { "(too late)" } else { "" })).collect();
     let really_interrupted = out.interrupted.iter().filter(|(_, e, _)| e != "completed").count();
     let mut sigs: Vec<String> = vs.iter().map(|x| x.sig.clone()).collect();
     sigs.sort();
     sigs.dedup();
     let outcome = format!("{} -> {}", labels.join(","), if sigs.is_empty() { "same_result".to_string() } else { sigs.join("+") });
-    let plan = Plan { scenario: p.scenario.clone(), interruptions: ints.to_vec() };
+    let plan = Plan { scenario: p.scenario.clone(), interruptions: ints.to_vec(), par: vec![] };
     let nontrivial = (really_interrupted > 0).then(|| mcx::hash_of(&(&p.scenario, ints)));
     let mut it = vs.into_iter();
     let first = it.next();
@@ -378,32 +472,28 @@ fn record(sw: &mut Sweep, p: &Prepared, ints: &[Interruption], out: &PlanOut) {
     }
 }
 
-/// Stable witnesses: for every signature report the first plan in enumeration order showing it.
-fn stabilise(mut sw: Sweep, p: &Prepared, plans: impl Iterator<Item = Vec<Interruption>>) -> Sweep {
+/// Stable witnesses: for every signature report the first plan in enumeration order showing it
+/// (index recorded during the sweep), re-executed once more to confirm.
+fn stabilise(mut sw: Sweep, p: &Prepared, w: Witness, plan_at: impl Fn(usize) -> Vec<Interruption>) -> Sweep {
     if sw.violations.is_empty() {
         return sw;
     }
     let rt = rt();
-    let mut open: Vec<usize> = (0..sw.violations.len()).collect();
-    for ints in plans {
-        if open.is_empty() {
-            break;
-        }
+    let w = w.into_inner().unwrap();
+    for v in sw.violations.iter_mut() {
+        let Some(k) = w.get(&v.sig) else { machinery_failure("C40: violation without witness index") };
+        let ints = plan_at(*k);
         let out = run_plan(&rt, &p.config, &ints);
-        let vs = check(p, &out);
-        open.retain(|&k| match vs.iter().find(|x| x.sig == sw.violations[k].sig) {
+        match check(p, &out).into_iter().find(|x| x.sig == v.sig) {
             Some(x) => {
-                sw.violations[k].msg = x.msg.clone();
-                sw.violations[k].history = json!(Plan { scenario: p.scenario.clone(), interruptions: ints.clone() });
-                sw.violations[k].confirmed_by_second_replay = true;
-                false
+                v.msg = x.msg;
+                v.history = json!(Plan { scenario: p.scenario.clone(), interruptions: ints, par: vec![] });
+                v.confirmed_by_second_replay = true;
             }
-            None => true,
-        });
+            None => machinery_failure("C40: a violation did not reproduce on re-execution"),
+        }
     }
-    if !open.is_empty() {
-        machinery_failure("C40: a violation did not reproduce on re-execution");
-    }
+    sw.violations.sort_by(|a, b| a.sig.cmp(&b.sig));
     sw
 }
 
@@ -413,11 +503,13 @@ pub fn main(cli: &Cli) -> ! {
         let rf = load_replay(path);
         let plan: Plan = serde_json::from_value(rf.history.clone()).unwrap_or_else(|e| machinery_failure(&format!("replay does not decode: {e}")));
         let rt = rt();
-        let p = prepare(&rt, &plan.scenario);
-        let out = run_plan(&rt, &p.config, &plan.interruptions);
+        let parallel = !plan.par.is_empty();
+        let p = prepare_mode(&rt, &plan.scenario, parallel);
+        let out = if parallel { run_plan_par(&rt, &p.config, &plan.par) } else { run_plan(&rt, &p.config, &plan.interruptions) };
         println!("replay: scenario {}", serde_json::to_string(&plan.scenario).unwrap());
-        for (i, (pt, e, dg)) in plan.interruptions.iter().zip(out.interrupted.iter()) {
-            println!("  interruption {:?} fired at {:?}: run ended with '{}', state digest {}", i, pt, e, dg);
+        let descr: Vec<String> = if parallel { plan.par.iter().map(|i| format!("{i:?}")).collect() } else { plan.interruptions.iter().map(|i| format!("{i:?}")).collect() };
+        for (i, (pt, e, dg)) in descr.iter().zip(out.interrupted.iter()) {
+            println!("  interruption {} fired at {:?}: run ended with '{}', state digest {}", i, pt, e, dg);
         }
         println!("  restarted import: {}", match &out.fin { Ok(_) => "completed".to_string(), Err(e) => format!("FAILED: {e}") });
         let vs = check(&p, &out);
@@ -454,6 +546,7 @@ pub fn main(cli: &Cli) -> ! {
         }
         let resumed_len: Mutex<Vec<Option<usize>>> = Mutex::new(vec![None; singles.len()]);
         let partial: Mutex<BTreeSet<String>> = Mutex::new(BTreeSet::new());
+        let w1: Witness = Default::default();
         let name1 = format!("s{si}_{}_single_interruption", p.scenario.encoding.kind());
         let sw = par_sweep(
             &name1,
@@ -472,22 +565,23 @@ pub fn main(cli: &Cli) -> ! {
                         machinery_failure(&format!("interrupted run ended with an unexpected error: {e}"));
                     }
                 }
-                record(sw, p, &ints, &out);
+                record(sw, p, &ints, &out, &w1, k);
             },
         );
         let partial_n = partial.lock().unwrap().len();
-        if partial_n < n / 4 {
+        let green = sw.violations.is_empty();
+        if green && partial_n < n / 4 {
             machinery_failure("interruptions did not produce distinct partial states (vacuous)");
         }
         for ph in ["BeforeProcess", "AfterProcess", "BeforeCommit", "AfterCommit"] {
             for act in ["Fail", "Cancel"] {
                 let pre = format!("{act}@{ph} ->");
-                if !sw.outcomes.keys().any(|k| k.starts_with(&pre)) {
+                if green && !sw.outcomes.keys().any(|k| k.starts_with(&pre)) {
                     machinery_failure(&format!("no effective interruption of class {act}@{ph}"));
                 }
             }
         }
-        let sw = stabilise(sw, p, singles.iter().map(|s| vec![*s]));
+        let sw = stabilise(sw, p, w1, |k| vec![singles[k]]);
         run.add_sweep(sw);
         let resumed_len = resumed_len.into_inner().unwrap();
         let mut pairs_n = 0usize;
@@ -504,6 +598,7 @@ pub fn main(cli: &Cli) -> ! {
                 }
             }
             pairs_n = pairs.len();
+            let w2: Witness = Default::default();
             let name2 = format!("s{si}_{}_two_interruptions", p.scenario.encoding.kind());
             let sw2 = par_sweep(
                 &name2,
@@ -512,14 +607,69 @@ pub fn main(cli: &Cli) -> ! {
                 cli.threads,
                 |k, sw: &mut Sweep| {
                     let out = RT.with(|rt| run_plan(rt, &p.config, &pairs[k]));
-                    record(sw, p, &pairs[k], &out);
+                    record(sw, p, &pairs[k], &out, &w2, k);
                 },
             );
-            let sw2 = stabilise(sw2, p, pairs.iter().map(|s| s.to_vec()));
+            let sw2 = stabilise(sw2, p, w2, |k| pairs[k].to_vec());
             run.add_sweep(sw2);
         }
         let window = post_import_window(&rt0, p);
         notes.push(json!({"scenario": p.scenario, "informational_crash_between_import_and_genesis_block_commit": window, "fault_points_in_uninterrupted_run": n, "groups_per_migration": tables, "single_interruptions": singles.len(), "distinct_partial_states": partial_n, "pairs": pairs_n}));
+    }
+    // parallel import path: tables with >= 10 groups are imported on blocking threads concurrently;
+    // interruptions are addressed by (migration, group, phase); plans run one at a time.
+    {
+        let shape = Shape { coins: 10, messages: 3, contracts: vec![ContractShape { slots: 3, balances: 3 }], blobs: 1, processed_txs: 10, height: 1 };
+        let scenario = Scenario { shape, encoding: Encoding::Parquet { group_size: Some(1) } };
+        let p = prepare_mode(&rt0, &scenario, true);
+        let tables: BTreeMap<String, usize> = p.baseline.commits.iter().fold(BTreeMap::new(), |mut m, c| {
+            *m.entry(c.0.clone()).or_default() += 1;
+            m
+        });
+        let mut plans: Vec<ParInterruption> = vec![];
+        for (m, g) in &p.baseline.commits {
+            // quick tier: only the tables imported in parallel; thorough: every table
+            if cli.tier == Tier::Quick && tables[m] < 10 {
+                continue;
+            }
+            for ph in ["BeforeProcess", "AfterProcess", "BeforeCommit", "AfterCommit"] {
+                for action in [Action::Fail, Action::Cancel] {
+                    plans.push(ParInterruption { migration: m.clone(), group: *g, phase: ph.to_string(), action });
+                }
+            }
+        }
+        let mut sw = Sweep::new("parallel_import_single_interruption", "single interruption addressed by (migration, group, phase) while >= 10-group tables are imported concurrently; non-trivial when the interruption ended the run with an error");
+        let mut effective = 0usize;
+        for pi in &plans {
+            let ints = [pi.clone()];
+            let out = run_plan_par(&rt0, &p.config, &ints);
+            if out.interrupted[0].0.is_none() {
+                machinery_failure(&format!("parallel scenario: fault point {pi:?} was not reached"));
+            }
+            let interrupted = out.interrupted[0].1 != "completed";
+            effective += interrupted as usize;
+            let vs = check(&p, &out);
+            let mut sigs: Vec<String> = vs.iter().map(|x| x.sig.clone()).collect();
+            sigs.sort();
+            sigs.dedup();
+            let outcome = format!("{:?}@{}{} -> {}", pi.action, pi.phase, if interrupted { "" } else { "(too late)" }, if sigs.is_empty() { "same_result".to_string() } else { sigs.join("+") });
+            let plan = Plan { scenario: p.scenario.clone(), interruptions: vec![], par: ints.to_vec() };
+            let nontrivial = interrupted.then(|| mcx::hash_of(&(&p.scenario, pi)));
+            let mut it = vs.into_iter();
+            let first = it.next();
+            sw.case(nontrivial, &outcome, || json!(plan), first.map(Err).unwrap_or(Ok(())));
+            for extra in it {
+                if !sw.violations.iter().any(|f| f.sig == extra.sig) {
+                    sw.violations.push(mcx::FoundViolation { subject: sw.name.clone(), sig: extra.sig, msg: extra.msg, history: json!(plan), confirmed_by_second_replay: false });
+                }
+            }
+        }
+        if sw.violations.is_empty() && effective < plans.len() / 2 {
+            machinery_failure("parallel scenario: most interruptions were ineffective (vacuous)");
+        }
+        run.add_sweep(sw);
+        notes.push(json!({"scenario": p.scenario, "parallel_import": true, "groups_per_migration": tables, "single_interruptions": plans.len(), "effective": effective}));
+        drop(p);
     }
     // determinism self-check on a few plans
     {
@@ -540,7 +690,7 @@ pub fn main(cli: &Cli) -> ! {
     }
     run.note("scenarios", json!(notes));
     run.assume("a crash/stop is modelled as the import returning an error (injected failure or the node's stop signal) followed by a new execute_genesis_block call on the same storage with all in-process state rebuilt; storage commits are atomic (RocksDB WriteBatch / the in-memory store's lock) - torn writes below the storage layer are out of scope");
-    run.assume("in-memory databases; tables have < 10 groups so the importer runs them sequentially on the calling thread (deterministic fault-point order); the >= 10 groups spawn_blocking path is not enumerated");
+    run.assume("in-memory databases; in the main scenarios tables have < 10 groups so the importer runs them sequentially on the calling thread (deterministic fault-point order, every point and every ordered pair enumerated); the >= 10 groups spawn_blocking path is covered by one scenario with single interruptions addressed by (migration, group, phase) - there the stopping point of the sibling tables depends on thread scheduling, only the final result is checked");
     run.assume("'same final state' = byte-identical dump of every column of the on-chain and off-chain databases, both right after the import (incl. GenesisMetadata progress) and after the genesis block is committed");
     drop(prepared);
     run.finish()
